@@ -538,9 +538,9 @@ def sweep_property(prop, args, commit, results):
         log(f"{prop}: test-suite baseline {baseline[0]}")
         jobs = []
         if args.identity:
-            jobs.append((f"{prop}-identity", None))
+            jobs.append((f"{args.id_prefix}{prop}-identity", None))
         for i, it in enumerate(chosen):
-            jobs.append((f"{prop}-{i + 1:02d}", it))
+            jobs.append((f"{args.id_prefix}{prop}-{i + 1:02d}", it))
         for mid, it in jobs:
             if results.have(mid):
                 continue
@@ -653,6 +653,7 @@ def main():
     ap.add_argument("--resume", action="store_true", help="keep finished mutants of an earlier run of the same sample")
     ap.add_argument("--list", action="store_true", help="only print the sampled mutants")
     ap.add_argument("--identity", action="store_true", help="control run: unparse-only rewrite of the anchored files")
+    ap.add_argument("--id-prefix", default="", help="prefix of the mutant ids (e.g. s1- for a second sample)")
     ap.add_argument("--apply", metavar="ID", help="write the mutant ID of the results file into --worktree and stop")
     ap.add_argument("--worktree", help="scratch worktree of /repo (at the commit of the results file) for --apply")
     ap.add_argument("--cross", metavar="ID:Cnn,...", help="run mutants of the results file against the check of ANOTHER "
